@@ -18,6 +18,7 @@ From NextestModel Require Import Base.Tac.
 From NextestModel Require gen.GenDecisions.
 From NextestModel Require Model.Result Model.Dispatcher Model.Junit Model.UnitTimers Model.Filter Model.FilterFull.
 From NextestModel Require Model.Backoff Model.CliRun Proofs.CliRun.
+From NextestModel Require Model.EarlyReturn Proofs.EarlyReturn.
 From NextestModel Require Model.AttemptDecision Proofs.AttemptDecision.
 From NextestModel Require Model.Overrides Model.Scripts.
 From NextestModel Require Model.SpawnSetup Proofs.SpawnSetup.
@@ -34,6 +35,8 @@ Module MFl := NextestModel.Model.Filter.
 Module MB := NextestModel.Model.Backoff.
 Module MC := NextestModel.Model.CliRun.
 Module PC := NextestModel.Proofs.CliRun.
+Module MER := NextestModel.Model.EarlyReturn.
+Module PER := NextestModel.Proofs.EarlyReturn.
 Module MA := NextestModel.Model.AttemptDecision.
 Module PA := NextestModel.Proofs.AttemptDecision.
 Module MO := NextestModel.Model.Overrides.
@@ -749,4 +752,17 @@ Lemma gen_num_test_threads_fills_queue :
   forall runner_threads ncpus,
     G.execute_threads_required G.ThreadsRequired_NumTestThreads runner_threads ncpus =
     G.execute_queue_limit runner_threads.
+Proof. bridge. Qed.
+
+(* == block exec_run_early_return (needs conv_cli) == *)
+(* App::exec_run (fifth round): the value tested by `let Some(runner_builder) = .. else { return Ok(0); }` -- the else
+   block holds the only `return Ok(..)` of the function (checked by the translator) -- regenerated from the source with
+   the `let`s it depends on (the capture strategy, TestRunnerOpts::to_builder): it is None, i.e. the function leaves with
+   exit code 0 before anything is run, iff --no-run was given -- whatever the other options, the capture mode and the
+   message format are, and whatever the test list holds ([n]: the model's answer does not depend on it; the test list is
+   not among the inputs of the regenerated fragment at all). *)
+Lemma gen_exec_run_early_return_is_model :
+  forall o nc f n,
+    match G.exec_run_early_return o nc f with None => true | Some _ => false end =
+    MER.returns_before_running (opts_to_model o) n.
 Proof. bridge. Qed.
